@@ -369,17 +369,20 @@ def g_output(g, depth):
     import pycardano as pc
     from pycardano import TransactionOutput
     rng = g.rng
-    o = TransactionOutput(g_address(g, 0), g_value(g, 0), post_alonzo=rng.random() < 0.5)
+    addr, amount, flag = g_address(g, 0), g_value(g, 0), rng.random() < 0.5
+    kw = {}
     r = rng.random()
     if r < 0.25:
-        o.datum_hash = pc.hash.DatumHash(rb(rng, 32))
+        kw["datum_hash"] = pc.hash.DatumHash(rb(rng, 32))
         g.hit("out:datum_hash")
     elif r < 0.5:
-        o.datum = rng.choice([g_plutus_datum(g, 0), 0, 42, b"", b"\x01"])
+        kw["datum"] = rng.choice([g_plutus_datum(g, 0), 0, 42, b"", b"\x01"])
         g.hit("out:inline")
     if rng.random() < 0.25:
-        o.script = rng.choice([g_any_plutus_script(g, 0), g_native_script(g, 1)])
+        kw["script"] = rng.choice([g_any_plutus_script(g, 0), g_native_script(g, 1)])
         g.hit("out:script")
+    # every field goes through the constructor: `__post_init__` is where `post_alonzo` is made consistent with the content
+    o = TransactionOutput(addr, amount, post_alonzo=flag, **kw)
     g.hit("out:" + ("map" if (o.datum is not None or o.script is not None or o.post_alonzo) else "legacy"))
     return o
 
